@@ -345,12 +345,18 @@ func concThread(g, iters int, seed int64, kinds []string) [][32]byte {
 	return out
 }
 
-func concCompare(G, iters int, seed int64, kinds []string) string {
-	seq := make([][][32]byte, G)
-	for g := 0; g < G; g++ {
-		seq[g] = concThread(g, iters, seed, kinds)
+// concRunMode performs the scenario either one goroutine after the other ("seq") or with all goroutines released
+// together ("con") and returns the per-call digests. Each mode runs in a child process of its own, so the concurrent
+// calls are the FIRST calls that process makes: one-time initialisation that is only safe when done sequentially
+// (a lazily built table, a cache filled on first use) is exercised cold, not after a sequential warm-up.
+func concRunMode(mode string, G, iters int, seed int64, kinds []string) [][][32]byte {
+	out := make([][][32]byte, G)
+	if mode == "seq" {
+		for g := 0; g < G; g++ {
+			out[g] = concThread(g, iters, seed, kinds)
+		}
+		return out
 	}
-	con := make([][][32]byte, G)
 	var wg sync.WaitGroup
 	start := make(chan struct{})
 	for g := 0; g < G; g++ {
@@ -358,19 +364,39 @@ func concCompare(G, iters int, seed int64, kinds []string) string {
 		go func(g int) {
 			defer wg.Done()
 			<-start
-			con[g] = concThread(g, iters, seed, kinds)
+			out[g] = concThread(g, iters, seed, kinds)
 		}(g)
 	}
 	close(start)
 	wg.Wait()
-	for g := 0; g < G; g++ {
+	return out
+}
+
+func concDigests(d [][][32]byte) string {
+	var b strings.Builder
+	for _, t := range d {
+		for _, h := range t {
+			b.WriteString(hex.EncodeToString(h[:8]))
+		}
+		b.WriteByte('.')
+	}
+	return b.String()
+}
+
+// concDiff compares the digest strings of the two modes; returns "same" or "diff <kind of the first differing call>"
+func concDiff(seq, con string, iters int, kinds []string) string {
+	if seq == con {
+		return "same"
+	}
+	st, ct := strings.Split(seq, "."), strings.Split(con, ".")
+	for g := 0; g < len(st) && g < len(ct); g++ {
 		for j := 0; j < iters; j++ {
-			if seq[g][j] != con[g][j] {
+			if 16*(j+1) > len(st[g]) || 16*(j+1) > len(ct[g]) || st[g][16*j:16*j+16] != ct[g][16*j:16*j+16] {
 				return "diff " + kinds[(g+j)%len(kinds)]
 			}
 		}
 	}
-	return "same"
+	return "diff " + kinds[0]
 }
 
 func concParse(a []string) (G, iters int, seed int64, kinds []string) {
@@ -398,7 +424,7 @@ func concChild(e *emitter) {
 	}
 	res := guard0(func() string {
 		G, iters, seed, kinds := concParse(a)
-		return concCompare(G, iters, seed, kinds)
+		return concDigests(concRunMode(os.Getenv("VERIF_CONC_MODE"), G, iters, seed, kinds))
 	})
 	fmt.Fprintf(e.w, "result\t%s\n", res)
 }
@@ -467,32 +493,41 @@ func concRun(a []string) (string, string) {
 	if err != nil {
 		return "bad-op", ""
 	}
-	cmd := exec.Command(self, "conc-child", "-tier", concTier)
-	cmd.Dir = dir
-	cmd.Env = append(os.Environ(), "VERIF_CONC_ARGS="+strings.Join(a[:4], " "),
-		"GORACE=log_path="+filepath.Join(dir, "race")+" halt_on_error=0 history_size=4 atexit_sleep_ms=0")
-	var out bytes.Buffer
-	cmd.Stdout = &out
-	runErr := cmd.Run()
-	report := ""
-	logs, _ := filepath.Glob(filepath.Join(dir, "race.*"))
-	for _, l := range logs {
-		b, _ := os.ReadFile(l)
-		report += string(b)
+	runChild := func(mode string) (result, report string, runErr error) {
+		cmd := exec.Command(self, "conc-child", "-tier", concTier)
+		cmd.Dir = dir
+		cmd.Env = append(os.Environ(), "VERIF_CONC_ARGS="+strings.Join(a[:4], " "), "VERIF_CONC_MODE="+mode,
+			"GORACE=log_path="+filepath.Join(dir, "race-"+mode)+" halt_on_error=0 history_size=4 atexit_sleep_ms=0")
+		var out bytes.Buffer
+		cmd.Stdout = &out
+		runErr = cmd.Run()
+		logs, _ := filepath.Glob(filepath.Join(dir, "race-"+mode+".*"))
+		for _, l := range logs {
+			b, _ := os.ReadFile(l)
+			report += string(b)
+		}
+		for _, line := range strings.Split(out.String(), "\n") {
+			if strings.HasPrefix(line, "result\t") {
+				result = strings.TrimPrefix(line, "result\t")
+			}
+		}
+		return
 	}
+	// the concurrent run first (cold process), then the one-call-at-a-time reference in a process of its own
+	con, report, conErr := runChild("con")
 	if strings.Contains(report, "WARNING: DATA RACE") {
 		return "race " + racyPackage(report), report
 	}
-	for _, line := range strings.Split(out.String(), "\n") {
-		if strings.HasPrefix(line, "result\t") {
-			r := strings.TrimPrefix(line, "result\t")
-			if r == "bad-op" {
-				return r, ""
-			}
-			return "ok " + r, ""
-		}
+	seq, _, seqErr := runChild("seq")
+	if con == "bad-op" || seq == "bad-op" {
+		return "bad-op", ""
 	}
-	return fmt.Sprintf("panic child: %v", runErr), ""
+	if con == "" || seq == "" {
+		return fmt.Sprintf("panic child: %v %v", conErr, seqErr), ""
+	}
+	G, iters, _, kinds := concParse(a)
+	_ = G
+	return "ok " + concDiff(seq, con, iters, kinds), ""
 }
 
 var concTier = func() string {
